@@ -87,7 +87,8 @@ def alignment_tables(ctx, report, folder):
 def attribute_names(ctx, report):
     wr = [ctx.index.get_function(DFXP, "_convert_layout_to_attributes"),
           ctx.index.get_function(DFXP, "_create_external_alignment")]
-    rd = [ctx.index.get_function(DFXP, "LayoutInfoScraper.scrape_positioning_info")]
+    rd = [ctx.index.get_function(DFXP, "LayoutInfoScraper.scrape_positioning_info", inline=True,
+                                 keep=("_find_attribute", "_find_attribute_on_element_or_styles"))]
     names_w, names_r = set(), set()
     for f in wr:
         report.covered(f)
